@@ -20,7 +20,7 @@ import reactivex
 from reactivex import Observable, abc
 from reactivex.disposable import CompositeDisposable, Disposable
 from reactivex.internal.constants import UTC_ZERO
-from reactivex.scheduler import HistoricalScheduler
+from reactivex.scheduler import HistoricalScheduler, VirtualTimeScheduler
 from reactivex.testing import TestScheduler
 
 from .core import HarnessError
@@ -67,6 +67,13 @@ class Lab:
         else:
             raise HarnessError(f"unknown clock {clock}")
         self.sched._lab = self
+        # The library bumps a virtual clock after MAX_SPINNING (100) consecutive same-instant dequeues, counting
+        # cancelled items the lab cannot see; a bump would shift every later tick and turn into a false alarm in
+        # time-exact oracles. Lab runs therefore disable the bump (C29, which is about that path, does not use Lab)
+        # and rely on the lab's own guards: SpinGuard (spin_limit invoked actions at one instant) and the work budget.
+        import reactivex.scheduler.virtualtimescheduler as _vts
+
+        _vts.MAX_SPINNING = 10**9
         self.spin_limit = spin_limit
         self.budget = budget
         self.work = 0
@@ -200,7 +207,9 @@ class Lab:
         Exceptions escaping scheduler.start() are stored in self.escaped (and not re-raised)."""
         try:
             if until is None:
-                self.sched.start()
+                # VirtualTimeScheduler.start, not TestScheduler.start (which would inject its own
+                # create/subscribe/dispose actions at ticks 100/200/1000)
+                VirtualTimeScheduler.start(self.sched)
             else:
                 self.sched.advance_to(self.abs(until))
         except SpinGuard:
